@@ -511,7 +511,7 @@ def component_admits_none(ctx, fld):
         return None
     for b in k.mro:
         if isinstance(b, ClassInfo) and '__attrs_post_init__' in b.methods:
-            pi = b.methods['__attrs_post_init__']
+            pi = b.resolve('__attrs_post_init__')
             guarded = any(isinstance(n, ast.If) and 'self.value is not None' in ast.unparse(n.test) for n in pi.node.body)
             return True if guarded else None
     return True
